@@ -13,7 +13,7 @@ aggr_transfer  eps b A                   -> CRS (P) | empty_level | precondition
 sa_transfer    lvl eps b relax est A     -> CRS (P) | empty_level | precondition
 ```
 `eps`, `relax` are the exact rational values of the `float` parameters; `lvl` is the number of earlier
-`transfer_operators` calls on the same `smoothed_aggregation` object (each halves `eps_strong`).
+`transfer_operators` calls on the same `smoothed_aggregation` object (each successful one halves `eps_strong`).
 -/
 namespace Amgcl.Driver.Coarsening
 open Amgcl Amgcl.Driver Amgcl.ParamGlue
@@ -38,10 +38,15 @@ def pBool : P Bool := do
   let t ← tok
   if t = "0" then pure false else if t = "1" then pure true else fail
 
-/-- `eps_strong` after `lvl` calls of `smoothed_aggregation::transfer_operators` -/
-def halve : Nat → Rat → Option Rat
+/-- `eps_strong` after `lvl` calls of `smoothed_aggregation::transfer_operators(A)` on one object: a call that
+throws (`empty_level`, `precondition`) leaves before the halving statement -/
+def epsAfter (b : Nat) (A : CRS Rat) : Nat → Rat → Option Rat
   | 0, e => some e
-  | n + 1, e => (f32Half e).bind (halve n)
+  | n + 1, e => do
+    let e2 ← f32Square e
+    match pointwiseAggregates qabs e2 b 0 A with
+    | .ok _ => (f32Half e).bind (epsAfter b A n)
+    | _ => epsAfter b A n e
 
 def handle (op : String) (args : List String) : Option String :=
   match op with
@@ -69,7 +74,7 @@ def handle (op : String) (args : List String) : Option String :=
         let lvl ← pNat; let e ← pRat; let b ← pNat; let rlx ← pRat; let est ← pBool; let A ← pCRS
         pure (lvl, e, b, rlx, est, A)) args
       fun (lvl, e, b, rlx, est, A) =>
-        match (halve lvl e).bind (fun e' =>
+        match (epsAfter b A lvl e).bind (fun e' =>
             ({ epsStrong := e', blockSize := b, relax := rlx, estimateSpectralRadius := est } : CoarseningParamsQ).toSA) with
         | some prm =>
           if squareWf A && b ≥ 1 && (ratToF32 rlx).isSome then
